@@ -1,4 +1,4 @@
-use super::{Namespace, TryFromNode, doc::RustDocument};
+use super::{Namespace, TryFromNode, doc::RustDocument, structures::element::ElementType};
 use crate::{
     error::{WriterError, WriterResult},
     reader::WriteXml,
@@ -101,10 +101,15 @@ impl<'n> TryFromNode<'n> for Field {
             let module = namespace.as_ref().map(|n| n.rust_mod_name.clone());
 
             let xml_name = ref_node.xml_name().ok_or(WriterError::InvalidReference)?;
-            let rust_type = RustFieldType::Other(OtherRustType {
-                name: as_type_name(xml_name),
-                module,
-            });
+            let rust_type = match ref_node.rust_type.try_as_element().map(|element| &element.element_type) {
+                // an element of a built-in type is written as an alias of that type, for which yaserde can not derive:
+                // the member gets the built-in type itself
+                Some(ElementType::RustType(builtin)) if !builtin.is_other() => builtin.clone(),
+                _ => RustFieldType::Other(OtherRustType {
+                    name: as_type_name(xml_name),
+                    module,
+                }),
+            };
 
             return Ok(Field {
                 xml_name: xml_name.to_string(),
